@@ -440,7 +440,8 @@ def race(cmds, cwd, timeout, mem_gb=12):
         for name, p, d, fo, fe in procs:
             if p.returncode is not None and p.returncode >= 0:
                 return name, p.returncode, open(os.path.join(d, 'out')).read(), open(os.path.join(d, 'err')).read(), s, False
-        return procs[0][0], -9, '', '', s, True
+        # nobody produced a verdict: a real timeout only if the budget is used up; otherwise every solver process died (killed: out of memory)
+        return procs[0][0], -9, '', '', s, s >= timeout - 1.0
     name, p, d = winner
     return name, p.returncode, open(os.path.join(d, 'out')).read(), open(os.path.join(d, 'err')).read(), s, False
 
